@@ -186,6 +186,9 @@ def enc_shard(asm, acc, m, tier, seed, deadline):
             judge(asm, acc, m, [rng.choice(p) for p in allp], kws[0], seen)
 
 
+PCREL = {'beq', 'bne', 'blt', 'bge', 'bltu', 'bgeu', 'jal', 'c.jal', 'c.j', 'c.beqz', 'c.bnez'}
+
+
 def prog_line(m, tup, kw):
     ops = [str(a) for a in tup]
     if kw:
@@ -196,6 +199,7 @@ def prog_line(m, tup, kw):
 def judge_program(asm, acc, m, tup, kw, alias=False):
     line = prog_line(m, tup, kw)
     pre = ''
+    skip = 0
     if alias:
         # legal register numbers / shift amounts named through constants (`Z = zero`, `SH = 0`): still the same operands
         ops = [str(a) for a in tup]
@@ -203,6 +207,13 @@ def judge_program(asm, acc, m, tup, kw, alias=False):
             if (is_reg_kind(kind) or kind in ('shamt', 'uimm5')) and isinstance(a, int) and 0 <= a <= 31:
                 pre += 'NM%d = %s\n' % (k, ['x%d' % a, operands.ABI[a], str(a), '%d - %d' % (a + 3, 3)][(a + k) % 4] if is_reg_kind(kind) else str(a))
                 ops[k] = 'NM%d' % k
+            elif m not in PCREL and isinstance(a, int) and (isinstance(kind, tuple) or kind in ('upper', 'cupper', 'nzshamt', 'shamt', 'uimm5')):
+                # an absolute immediate given by name, any value (also unrepresentable ones)
+                pre += 'NV%d = %d\n' % (k, a)
+                ops[k] = 'NV%d' % k
+        # ... and not at address 0: a name in a non pc-relative position means its value wherever the instruction sits
+        skip = 4 * ((sum(a for a in tup if isinstance(a, int)) + len(m)) % 4)
+        pre += 'nop\n' * (skip // 4)
         if kw:
             ops += [str(kw['aq']), str(kw['rl'])]
         line = m + (' ' + ', '.join(ops) if ops else '')
@@ -211,18 +222,20 @@ def judge_program(asm, acc, m, tup, kw, alias=False):
     o = monitors.observe(asm, pre + line, tap=False)
     acc['ntkeys'].add(core.ckey('prog', line)) if status != operands.UNSPEC else None
     acc['ctr']['prog_' + status] += 1
-    case = {'kind': 'prog', 'm': m, 'args': list(tup), 'kw': kw or {}}
+    case = {'kind': 'prog', 'm': m, 'args': list(tup), 'kw': kw or {}, 'alias': alias}
     if not o.ok:
         if status == operands.ACCEPT:
-            core.add_viol(acc, 'one-line program %r (representable operands) is refused: %s: %s' % (line, o.exc['type'], o.exc['msg']), case, {})
+            core.add_viol(acc, 'one-line program %r (representable operands) is refused: %s: %s' % ((pre + line).replace('\n', ' ; '), o.exc['type'], o.exc['msg']), case, {})
         return
     if status == operands.REJECT:
-        core.add_viol(acc, 'one-line program %r (unrepresentable operands) produced output %s' % (line, o.out.hex()), case, {'out': o.out.hex()})
+        core.add_viol(acc, 'one-line program %r (unrepresentable operands) produced output %s' % ((pre + line).replace('\n', ' ; '), o.out[skip:].hex()), case, {'out': o.out.hex()})
         return
     want = 2 if m.startswith('c.') else 4
-    dec = monitors.decode_any(m, int.from_bytes(o.out, 'little')) if len(o.out) == want else ('%d bytes' % len(o.out), o.out.hex())
+    out = o.out[skip:]
+    acc['ctr']['prog_not_at_address_0'] += bool(skip)
+    dec = monitors.decode_any(m, int.from_bytes(out, 'little')) if len(out) == want else ('%d bytes' % len(out), out.hex())
     if dec != exp:
-        core.add_viol(acc, 'one-line program %r -> %s decodes to %r, named %r' % (line, o.out.hex(), dec, exp), case, {})
+        core.add_viol(acc, 'one-line program %r -> %s decodes to %r, named %r' % ((pre + line).replace('\n', ' ; '), out.hex(), dec, exp), case, {})
 
 
 def prog_shard(asm, acc, sh, deadline):
@@ -404,5 +417,5 @@ def replay(case):
     elif case['kind'] == 'enc':
         judge(asm, acc, case['m'], case['args'], case.get('kw') or None, set())
     else:
-        judge_program(asm, acc, case['m'], case['args'], case.get('kw') or None)
+        judge_program(asm, acc, case['m'], case['args'], case.get('kw') or None, alias=case.get('alias', False))
     return acc
